@@ -1,7 +1,7 @@
 ------------------------------- MODULE MCns -------------------------------
 EXTENDS FsSpec
 MCNames == IF "VERIF_NAMES" \in DOMAIN IOEnv /\ IOEnv.VERIF_NAMES = "3" THEN {"a", "b", "c"} ELSE {"a", "b"}
-MCNameOrder == <<"a", "b", "c">>
+MCNameOrder == <<"B", "a", "b", "c", "d", "e", "f", "l1", "l2", "s", "t", "u", "w", "zz">>
 MCMaxLen == IF "VERIF_MAXLEN" \in DOMAIN IOEnv THEN atoi(IOEnv.VERIF_MAXLEN) ELSE 2
 MCProfile == IF "VERIF_PROFILE" \in DOMAIN IOEnv THEN IOEnv.VERIF_PROFILE ELSE "ns"
 =============================================================================
